@@ -376,6 +376,12 @@ var kSamWrite = register(&Kind{Name: "sam_write",
 		if err != nil {
 			return L(BL(w.chunks), vErr)
 		}
+		if !marshalKeeps(mt, func() {
+			(&sam.SAM{Qname: "another record", Rname: "chrZ", Cigar: "200M", Rnext: "=", Seq: strings.Repeat("T", 200), Qual: "*",
+				Tags: map[string]any{"ZZ": "other"}}).MarshalText()
+		}) {
+			return L(BL(w.chunks), vMarshalAliased)
+		}
 		return L(BL(w.chunks), vOk(B(mt)))
 	},
 	Oracle: func(in, out Val) string {
@@ -901,6 +907,19 @@ func init() {
 			c.Run(kSamWrite, samWriteCase(s), true, "record/long-line")
 			c.Run(kSamReadHdr, samReadCase(samText(s), false), true, "read:record/long-line")
 			c.Run(kSamReadHdr, samReadCase(samText(s)[:n+n/2], true), true, "read:record/long-line/fault")
+		}
+
+		// very long lines, implementation and oracle only (a reader with a fixed
+		// line-length limit, e.g. a 1 MiB buffer, breaks here)
+		{
+			k := *kSamWrite
+			k.NoModel = true
+			for _, n := range []int{1 << 20, 1<<20 + 1, c.Pick(2<<20+3, 9<<20+1)} {
+				s := c.samRecord()
+				s.Seq = string(c.RandBytes(n, []byte("ACGT")))
+				s.Qual = "*"
+				c.Run(&k, samWriteCase(s), true, "record/very-long-line-impl-only")
+			}
 		}
 
 		// --- files
